@@ -7,6 +7,7 @@ mod servers;
 mod model;
 mod gen;
 mod enga;
+mod engc;
 mod common;
 mod props;
 mod driver;
